@@ -4,7 +4,7 @@
    Internal functions return `xr A`: XOk / XErr (a ParseError) / XPanic site (an index, unwrap, expect
    or overflow-check failure of the debug build; `site` is an approximate source line of host.rs) /
    XFuel (fuel of a `while` loop ran out; fuel is always the length of the remaining input and every
-   iteration consumes at least one byte, Proofs/C09_Total.v proves XPanic and XFuel unreachable).
+   iteration consumes at least one byte, Proofs/C09_V6total.v proves XPanic and XFuel unreachable).
    The exported entry points host_parse / host_parse_opaque / host_display use the shared types of
    Model/HostT.v.
 
